@@ -331,7 +331,7 @@ pub fn gen_maybe_invalid(ctx: &mut Ctx) -> (ReqCfg, u8) {
             }
             3 => {
                 // content-length variants
-                let v: &[u8] = *ctx.pick(&[&b"5"[..], b"0", b"-1", b"abc", b"", b"5x", b"1.0", b"\xff\xfe", b"+5", b"99999999999999999999999", b"007"]);
+                let v: &[u8] = *ctx.pick(&[&b"5"[..], b"0", b"-1", b"abc", b"", b"5x", b"1.0", b"\xff\xfe", b"+5", b"99999999999999999999999", b"007", b"4294967296", b"18446744073709551615", b"65536"]);
                 let h = ("content-length".to_string(), v.to_vec());
                 if api == 0 && ctx.flip() {
                     insert_at(ctx, &mut cfg.added, h);
